@@ -51,11 +51,12 @@ theorem toRule_not_parentTM (fr : FlatRule) : (toRule fr).objectMapType ≠ .par
 
 /-- the frame `_get_data` delivers on a complete table -/
 theorem getData_ok {env : Env} {senv : SEnv} (henv : EnvOK env senv) (fr : FlatRule) (refs : List Str)
-    (hc : Complete refs (senv.tableF fr) = true) :
+    (hc : Complete refs (senv.tableF fr) = true) (hne : refs.isEmpty = false) :
     getData env (toRule fr) refs = .ok (Frame.mk (dedupFirst refs) [] none
       ((prepRows env.na refs (senv.tableF fr)).map fun σ => ({ src := σ } : FRow))) := by
   unfold getData
   rw [tableF_eq henv, preprocess_eq _ _ _ hc]
+  simp only [hne]
   rfl
 
 /-- **From passed-down to own data.** -/
@@ -64,8 +65,13 @@ theorem fresh_of_pass {env : Env} {senv : SEnv} (henv : EnvOK env senv) (frs : L
   intro q hok pjr nest hnn hcomp hpjr
   have hl := localOK_facts (okAt_local hok)
   have hrefs := refsStar_toRule frs n q (okAt_depthLe hok)
-  rw [evalStar_none env _ n (toRule q) pjr nest _ hrefs hl.notConst (toRule_not_parentTM q),
-    getData_ok henv q _ hcomp, bind_ok]
+  have hne : (frefs frs (n + 1) q ++ pjr).isEmpty = false := by
+    have := hl.hasRefs
+    cases hq : frefs frs (n + 1) q with
+    | nil => rw [hq] at this; simp at this
+    | cons a l => rfl
+  rw [evalStar_none env _ n (toRule q) pjr nest _ hrefs hl.notConst (toRule_not_parentTM q) hne,
+    getData_ok henv q _ hcomp hne, bind_ok]
   -- the frame of the rule's own data
   let F0 : Frame := Frame.mk (dedupFirst (frefs frs (n + 1) q ++ pjr)) [] none
     ((prepRows env.na (frefs frs (n + 1) q ++ pjr) (senv.tableF q)).map fun σ => ({ src := σ } : FRow))
